@@ -166,7 +166,7 @@ func streamCwt(c *ctx) {
 				typeErr = true
 				return big.NewInt(x), true
 			case 4:
-				m[label] = float64(u)
+				m[label] = pick(c.r, []any{float64(u), math.NaN(), math.Inf(1), math.Inf(-1), float32(u), float64(u) + 0.5})
 				typeErr = true
 				return nil, true
 			case 5:
